@@ -11,20 +11,15 @@ EXTENDS Design, Json, IOUtils
 
 Cases == JsonDeserialize(IOEnv.VERIF_CASES)
 NC == Len(Cases)
-\* Per-case normal forms are computed once (per TLC worker) and kept in TLC registers: definitions that
-\* go through RECURSIVE operators are not constant-folded by TLC and would be re-evaluated at every use.
-FNDef == TLCEval([d \in 1..NC |-> NormFactors(Cases[d].factors)])
-NBDef(fn) == TLCEval([d \in 1..NC |-> NormTop(fn[d], Cases[d].block)])
-CHDef(fn, nb) == TLCEval([d \in 1..NC |-> IF nb[d].ok THEN TLCEval(TrialChoices(fn[d], nb[d])) ELSE {}])
-ImplDef == TLCEval([d \in 1..NC |-> TLCEval({ Cases[d].impl[k] : k \in 1..Len(Cases[d].impl) })])
-ASSUME /\ TLCSet(1, FNDef)
-       /\ TLCSet(2, NBDef(TLCGet(1)))
-       /\ TLCSet(3, CHDef(TLCGet(1), TLCGet(2)))
-       /\ TLCSet(4, ImplDef)
-FN == TLCGet(1)
-NB == TLCGet(2)
-CH == TLCGet(3)
-ImplSet == TLCGet(4)
+\* per-case normal forms, computed once by MCNorm (phase 0) and read back as constants
+\* (kept in a TLC register: TLC re-evaluates IODeserialize at every mention otherwise)
+ASSUME TLCSet(1, IODeserialize(IOEnv.VERIF_NORM, FALSE))
+Pre == TLCGet(1)
+FN == Pre[1]
+NB == Pre[2]
+CH == Pre[3]
+ASSUME TLCSet(2, TLCEval([d \in 1..NC |-> TLCEval({ Cases[d].impl[k] : k \in 1..Len(Cases[d].impl) })]))
+ImplSet == TLCGet(2)
 Prune == IOEnv.VERIF_PRUNE # "0"
 
 VARIABLES c, seq
